@@ -40,7 +40,7 @@ func leafForms() []int {
 		for i := 0; i < lfCount; i++ {
 			all = append(all, i)
 		}
-		return append(all, lfEmptyQuoted, lfNonASCII, lfEqSpecial, lfListInt, lfRangeBig, lfEqBig, lfWildField, lfQuotedDigits, lfRangeMixed)
+		return append(all, lfEmptyQuoted, lfNonASCII, lfEqSpecial, lfListInt, lfRangeBig, lfEqBig, lfWildField, lfQuotedDigits, lfRangeMixed, lfQuotedWild, lfQuotedRegexp, lfFloatWhole, lfEqHuge)
 	}
 	if rtParam("LEAVES") == 7 { // default-field alphabet: the full one plus quoted bare terms with wildcard characters
 		all := make([]int, 0, lfCount+2)
@@ -55,6 +55,12 @@ func leafForms() []int {
 			all = append(all, i)
 		}
 		return append(all, lfRangeFloat, lfRangeWhole, lfListInt)
+	}
+	if rtParam("LEAVES") == 10 { // bare numbers (printed as -(5) under a minus) next to bare and fielded strings
+		return []int{lfBare, lfBareInt, lfEqStr}
+	}
+	if rtParam("LEAVES") == 9 { // comparisons (their reduction consumes two or three operator tokens) next to a plain field term
+		return []int{lfEqStr, lfGt, lfGe}
 	}
 	if rtParam("LEAVES") == 2 {
 		return []int{lfBare, lfEqStr, lfEqInt, lfGt, lfRangeIncl, lfList, lfWild, lfBareInt}
@@ -187,6 +193,9 @@ func lastTokenIsTerm(n *node, parenthesised bool) bool {
 	case nAnd, nOr:
 		return lastTokenIsTerm(n.r, level[n.r.kind] <= level[n.kind])
 	case nNot, nMust, nMustNot:
+		if n.kind == nMustNot && n.l.kind == nLeaf && n.l.lf.form == lfBareInt {
+			return false // printed as -(5): -5 would be one number token
+		}
 		return lastTokenIsTerm(n.l, level[n.l.kind] < level[n.kind])
 	case nBoost, nFuzzy:
 		return n.hasNum // a bare ^ or ~ ends with the operator
@@ -264,15 +273,22 @@ func H_TreeLayout() {
 		o.valuePar = true
 	case 4: // white space between a prefix operator and its operand
 		o.prefixSp = true
+	case 5: // every kind of white space the lexer knows, alone: tab, line feed, carriage return, CR LF
+		o.spaceStr = []string{"\t", "\n", "\r", "\r\n"}[rtChoose("ws", 4)]
+	case 6: // redundant parentheses around the number operand of ~ and ^
+		o.numPar = true
 	}
 	text := printNode(t, 0, o)
 	if variant == 0 {
 		text = " \n" + text + "\t "
 	}
+	if variant == 5 {
+		text = o.spaceStr + text + o.spaceStr
+	}
 	rtObserve("base", base)
 	rtObserve("variant", text)
 	e1, err1 := parse(text)
-	if variant < 2 {
+	if variant < 2 || variant == 5 {
 		rtAssert("same-outcome", (err0 == nil) == (err1 == nil))
 	}
 	if err0 != nil || e0 == nil {
@@ -336,5 +352,121 @@ func H_TreeDefaultField() {
 	}
 	rtAssert("without-matches", matchTree(e0, t, ""))
 	rtAssert("scoped-exactly", matchTree(e1, t, df))
+	// the same two clauses decided on the two parse results alone, without the reference matcher
+	rtAssert("erase-gives-plain", sameModuloScope(e1, e0, df))
+	rtAssert("no-bare-term", noBareOperand(e1))
+	rtReach("end")
+}
+
+func init() { register("GroupDefaultField", H_GroupDefaultField) }
+
+// sameModuloScope: a is the tree parsed with the default field df, b the tree parsed without it;
+// erasing every df: scoping from a gives exactly b (C11's own statement, decided on the two
+// real parse results).
+func sameModuloScope(a, b any, df string) bool {
+	switch x := a.(type) {
+	case nil:
+		return b == nil
+	case *expr.Expression:
+		if x == nil {
+			y, ok := b.(*expr.Expression)
+			return ok && y == nil
+		}
+		if (x.Op == expr.Equals || x.Op == expr.Like) && litColumn(x.Left, df) {
+			return sameModuloScope(x.Right, b, df)
+		}
+		y, ok := b.(*expr.Expression)
+		if !ok || y == nil || x.Op != y.Op || expr.VerifBoostPower(x) != expr.VerifBoostPower(y) || expr.VerifFuzzyDistance(x) != expr.VerifFuzzyDistance(y) {
+			return false
+		}
+		return rtAnd(sameModuloScope(x.Left, y.Left, df), sameModuloScope(x.Right, y.Right, df))
+	case []*expr.Expression:
+		y, ok := b.([]*expr.Expression)
+		if !ok || len(x) != len(y) {
+			return false
+		}
+		res := true
+		for i := range x {
+			res = rtAnd(res, sameModuloScope(x[i], y[i], df))
+		}
+		return res
+	case *expr.RangeBoundary:
+		y, ok := b.(*expr.RangeBoundary)
+		if !ok || (x == nil) != (y == nil) {
+			return false
+		}
+		if x == nil {
+			return true
+		}
+		return x.Inclusive == y.Inclusive && rtAnd(sameModuloScope(x.Min, y.Min, df), sameModuloScope(x.Max, y.Max, df))
+	case string:
+		y, ok := b.(string)
+		return ok && x == y
+	case expr.Column:
+		y, ok := b.(expr.Column)
+		return ok && string(x) == string(y)
+	case int:
+		y, ok := b.(int)
+		return ok && x == y
+	case float64:
+		y, ok := b.(float64)
+		return ok && x == y
+	}
+	return false
+}
+
+// noBareOperand: outside field values no term stands alone as an operand or as the whole query.
+func noBareOperand(v any) bool {
+	e := asExpr(v)
+	if e == nil {
+		return true
+	}
+	switch e.Op {
+	case expr.Literal, expr.Wild, expr.Regexp:
+		return false
+	case expr.And, expr.Or:
+		return noBareOperand(e.Left) && noBareOperand(e.Right)
+	case expr.Not, expr.Must, expr.MustNot, expr.Boost, expr.Fuzzy:
+		return noBareOperand(e.Left)
+	}
+	return true // a field operator: what is below belongs to that field
+}
+
+// H_GroupDefaultField (C11): field groups field:(E) with E any nesting of OR, AND, NOT over bare
+// strings, numbers and patterns, alone or next to other operands, parsed with and without a
+// default field; the two results are compared with each other.
+func H_GroupDefaultField() {
+	gops := []int{nOr, nAnd, nNot}
+	gforms := []int{lfBare, lfBareInt, lfBareWild}
+	if rtParam("GFORMS") == 1 {
+		gforms = []int{lfBare}
+	}
+	g := &node{kind: nGroup, field: holeField(), l: genTree(rtParam("GD"), gops, gforms)}
+	bare := func() *node { return &node{kind: nLeaf, lf: &leaf{form: lfBare, s1: holeStr()}} }
+	t := g
+	nAround := 4
+	if rtParam("GFORMS") == 1 {
+		nAround = 1
+	}
+	switch rtChoose("around", nAround) {
+	case 1:
+		t = &node{kind: nNot, l: g}
+	case 2:
+		t = &node{kind: nAnd, l: bare(), r: g}
+	case 3:
+		t = &node{kind: nOr, l: g, r: bare()}
+	}
+	text := printNode(t, 0, &printOpts{})
+	rtObserve("text", text)
+	df := string([]byte{holeByte("df", "ABCDEFGHIJKLMNOPQRSTUVWXYZ"), holeByte("df", "ABCDEFGHIJKLMNOPQRSTUVWXYZ_0123456789")})
+	e0, err0 := lucene.Parse(text)
+	e1, err1 := lucene.Parse(text, lucene.WithDefaultField(df))
+	rtAssert("same-acceptance", (err0 == nil) == (err1 == nil))
+	if err0 != nil || err1 != nil || e0 == nil || e1 == nil {
+		rtReach("rejected")
+		return
+	}
+	rtAssert("erase-gives-plain", sameModuloScope(e1, e0, df))
+	rtAssert("no-bare-term", noBareOperand(e1))
 	rtReach("end")
 }
